@@ -388,6 +388,12 @@ func (s *scheduler) establishIncomingHandshake(pc *conn.PendingConn, rb conn.Rem
 		s.failIncomingHandshake(pc, fmt.Errorf("torrent stat: %s", err))
 		return
 	}
+	if pc.InfoHash() != info.InfoHash() {
+		// The pending conn was registered under the info hash of the handshake,
+		// whereas the conn would be created for the torrent of the digest.
+		s.failIncomingHandshake(pc, errors.New("info hash does not match the torrent of the digest"))
+		return
+	}
 	c, err := s.handshaker.Establish(pc, info, rb)
 	if err != nil {
 		s.failIncomingHandshake(pc, fmt.Errorf("establish handshake: %s", err))
